@@ -18,3 +18,5 @@ OBLIGATIONS = ([K.WIG_SECTION_W] + K.WRITER_LAYOUT + K.SPANS + [K.WIG_FLUSH, K.W
 OBLIGATIONS = OBLIGATIONS + [K.BLOCK_DATA, K.SEARCH_ORDER, K.INTERVAL_SIBS]
 OBLIGATIONS = OBLIGATIONS + [K.TREE_OFFSETS]
 OBLIGATIONS = OBLIGATIONS + [K.EVERY_VALUE]
+OBLIGATIONS = OBLIGATIONS + [K.MAGICS]
+OBLIGATIONS = OBLIGATIONS + [K.ARG_NAMES]
